@@ -301,23 +301,6 @@ pub fn apply(pool: &mut Pool, op: &Json) -> Outcome {
             }
         }
     }
-    // A child of a *detached root* cannot be detached from it by the library (the id map has lost
-    // the root: open finding c12.child-of-detached-root-reports-no-parent), so moving such a node
-    // would leave it in two child lists. Excluded by construction, counted.
-    if matches!(kind, "append" | "insert_before" | "replace") {
-        let key = if kind == "replace" { "n" } else { "c" };
-        let c = pool.node(&op[key]);
-        if c.parent_node().is_none() {
-            for x in pool.nodes.iter() {
-                if matches!(x, XmlNode::Document(_)) || x.parent_node().is_some() {
-                    continue;
-                }
-                if x.child_nodes().iter().any(|k| k.id() == c.id()) {
-                    return Outcome::Excluded("move-child-of-detached-root");
-                }
-            }
-        }
-    }
     let r = panics::catch(|| apply_inner(pool, kind, op));
     match r {
         Ok(o) => o,
